@@ -1,0 +1,19 @@
+//go:build verif
+
+// Contracts for package shutterevents, checked by /verif/govc (see /verif/DESIGN.md). Comments only.
+package shutterevents
+
+// ---- BatchConfig helpers (C10, C11) -------------------------------------------------------------------------
+//@ pred isMember(bc, a) := exists i :: 0 <= i && i < len(bc.Keypers) && bc.Keypers[i] == a
+//@ func (*BatchConfig).KeyperIndex
+//@   requires bc != nil
+//@   ensures ret1 <==> isMember(bc, address)
+//@   ensures ret1 ==> (ret0 < len(bc.Keypers) && bc.Keypers[ret0] == address)
+//@   invariant forall j :: 0 <= j && j <= rangeindex ==> bc.Keypers[j] != address
+//@ func (*BatchConfig).IsKeyper
+//@   requires bc != nil
+//@   ensures ret0 <==> isMember(bc, candidate)
+//@ pred cfgValid(bc) := len(bc.Keypers) >= 1 && bc.Threshold >= 1 && bc.Threshold <= len(bc.Keypers)
+//@ func (*BatchConfig).EnsureValid
+//@   requires bc != nil && len(bc.Keypers) <= 1048576
+//@   ensures ret0 == nil <==> cfgValid(bc)
